@@ -476,7 +476,7 @@ class ExprMixin:
                 c = self._shift_amount(shifted)
                 if c is not None:
                     side = And(Le(I(0), ov), Lt(ov, I(2 ** c)))
-                    st2 = self.oblige(st, side, "lowering", f"bitor-disjoint:{where}")
+                    st2 = self.oblige(st, side, "lowering", "bitor-disjoint", meta={"where": where})
                     return k(st2, VInt(Add(sv, ov)))
         raise Unsupported(f"bit-or without a lowering rule: {where}")
 
